@@ -49,8 +49,9 @@ CHECKS = {
                                                  J("TestC08Windows", (4, 300), (16, 4000), race=True, env={"VF_TIMED": "1"}, timeout=(900, 5400)),
                                                  J("TestC08Duets", (4, 0), (12, 0), race=True, kind="plain", timeout=(900, 5400)),
                                                  J("TestC08BigAppends", (4, 0), (8, 0), kind="plain", timeout=(600, 1800)),
-                                                 J("TestC08TailRace", (4, 0), (8, 0), kind="plain", timeout=(600, 1800))],
-                rule="windows job: one evaluation = one owned schedule: a generated sequential prefix (publish/delete/GC on a small-rollover log), then call A (Publish with/without rollover, Delete on head/reader segment, a read, GC) held at the k-th occurrence of one of 11 pause points while up to two further complete calls (any of Publish, Consume, ConsumeByKey, Get, GetByKey, GetByTime, Delete, NextOffset, Sync, GC, Stat) are issued, then A is released; oracle = brute-force linearization of the <=3 calls (some order consistent with real time replays on the reference model with every observed result admissible, no error the sequential contract does not allow); non-trivial = the armed point was actually reached; distinct by (point, call kinds, occurrence, case hash). stress job (built with -race): one evaluation = one API call inside a seeded free-running mix (1-3 publishers, 1-2 deleters aimed at the head, 1-3 cursor readers doing all read calls, GC/Stat/Sync) with timed sleeps at the pause points; oracle = Go race detector + history invariants (disjoint dense offset ranges, content never changes, nothing disappears or is stepped over unless a Delete reported it, no call fails because of concurrent activity, final content == published minus reported deleted); non-trivial round = at least one rollover and one delete of the newest message. Half of the window cases are focused templates (delete in the writing segment while a publish rolls it over, publish vs delete/GC/Stat/Sync, GC vs reads and deletes in the unloaded segment). A duets job (-race) runs 12 pairs of call kinds x KeepRewriteVersion on/off with only two goroutines, because in the full mix the detector's 4-entry access history of a hot address is usually overwritten by properly locked readers before the racy access happens. The windows job also runs on the -race binary in timed mode (A is held by a sleep instead of a channel, so the detector sees the other calls as concurrent with the rest of A). Further window features: A may be held at a file-system step, a deadlock is reported when all unreturned calls are parked in a mutex wait in one stop-the-world goroutine snapshot (never on elapsed time), one or two sequential calls may follow the window before the observation, cases with Rollover equal to the head's size. Duets job (-race): two goroutines, 14 pairs of call kinds. BigAppends job (plain binary): records of 3000-70000 bytes appended against Delete/Consume/lookups of the head. TailRace job (plain binary, full speed, no deletes): Get/Consume/GetByKey/NextOffset at the offset that is being assigned and Consume(OffsetOldest) on a fresh or just-emptied log against a publisher, 800 (thorough 8000) fresh logs per shard; every read has exactly two admissible answers",
+                                                 J("TestC08TailRace", (4, 0), (8, 0), kind="plain", timeout=(600, 1800)),
+                                                 J("TestC08Helpers", (4, 1500), (16, 20000), timeout=(900, 5400))],
+                rule="windows job: one evaluation = one owned schedule: a generated sequential prefix (publish/delete/GC on a small-rollover log), then call A (Publish with/without rollover, Delete on head/reader segment, a read, GC) held at the k-th occurrence of one of 11 pause points while up to two further complete calls (any of Publish, Consume, ConsumeByKey, Get, GetByKey, GetByTime, Delete, NextOffset, Sync, GC, Stat) are issued, then A is released; oracle = brute-force linearization of the <=3 calls (some order consistent with real time replays on the reference model with every observed result admissible, no error the sequential contract does not allow); non-trivial = the armed point was actually reached; distinct by (point, call kinds, occurrence, case hash). stress job (built with -race): one evaluation = one API call inside a seeded free-running mix (1-3 publishers, 1-2 deleters aimed at the head, 1-3 cursor readers doing all read calls, GC/Stat/Sync) with timed sleeps at the pause points; oracle = Go race detector + history invariants (disjoint dense offset ranges, content never changes, nothing disappears or is stepped over unless a Delete reported it, no call fails because of concurrent activity, final content == published minus reported deleted); non-trivial round = at least one rollover and one delete of the newest message. Half of the window cases are focused templates (delete in the writing segment while a publish rolls it over, publish vs delete/GC/Stat/Sync, GC vs reads and deletes in the unloaded segment). A duets job (-race) runs 12 pairs of call kinds x KeepRewriteVersion on/off with only two goroutines, because in the full mix the detector's 4-entry access history of a hot address is usually overwritten by properly locked readers before the racy access happens. The windows job also runs on the -race binary in timed mode (A is held by a sleep instead of a channel, so the detector sees the other calls as concurrent with the rest of A). Further window features: A may be held at a file-system step, a deadlock is reported when all unreturned calls are parked in a mutex wait in one stop-the-world goroutine snapshot (never on elapsed time), one or two sequential calls may follow the window before the observation, cases with Rollover equal to the head's size. Duets job (-race): two goroutines, 14 pairs of call kinds. BigAppends job (plain binary): records of 3000-70000 bytes appended against Delete/Consume/lookups of the head. TailRace job (plain binary, full speed, no deletes): Get/Consume/GetByKey/NextOffset at the offset that is being assigned and Consume(OffsetOldest) on a fresh or just-emptied log against a publisher, 800 (thorough 8000) fresh logs per shard; every read has exactly two admissible answers. Helpers job: one Multi helper (CompactUpdatesMulti, CompactDeletesMulti, Compact, TrimByOffsetMulti, TrimByAgeMulti, DeleteMultiOffsets) held at the k-th occurrence of a pause point of the Delete it is in, a Publish of fresh keys inside; afterwards nothing but messages of the state before is gone, none altered, the helper reported exactly what disappeared, every concurrently published message is live, and (compactions) the latest value of every key is what it was",
                 level_note="interleavings reachable through the listed pause points plus what the seeded stress happens to hit; the race detector only reports races that execute; free-running runs are not reproducible by construction (their replay file is the recorded history / race report)"),
     "C09": dict(level="exploration", jobs=[J("TestC09", (4, 500), (16, 5000), steps=40)],
                 rule="one case = one history over a key universe with nil, empty, prefix-related keys and three real FNV-1a-64 collision pairs; after every step GetByKey/OffsetByKey/ConsumeByKey (iteration and every cursor offset) for every key incl. absent ones; non-trivial = a lookup ran while a different key with the same hash was live; distinct by trace hash. Dimensions drawn per case or step in every history job: index configuration; rollover size (incl. exactly the head's size, +-1); NewSegmentsVersion/KeepRewriteVersion/EagerVersionMigrate/Check/Recover/AutoSync re-drawn at every open; index files removed and segment files replaced by symbolic links while closed; directory name (glob/shell characters) and spelling; message times monotone / arbitrary / zero (stamped by the log) / far future / with nanoseconds and a zone / before 1970; keys incl. nil, empty, hash collisions and keys of 300, 5000 and 70000 bytes; values up to 70 KB; a rejected (too big) message at a drawn position of a batch; offsets and bounds up to MaxInt64; nil map/slice; Multi calls with the library's back-off or one that fails / cancels; the invariant after every step or only every n-th (lazy state); read-only sessions incl. GC; a missing key/value is handed out the same way (nil or empty) every time"),
@@ -77,7 +78,7 @@ CHECKS = {
                 rule="one evaluation = one complete schedule of a cooperative scheduler inside a testing/synctest bubble: up to 8 waiters (ConsumeBlocking / ConsumeByKeyBlocking, raw and typed wrappers, offsets below/at/above NextOffset and relative), up to 3 publishers (incl. empty batches), cancellations and Close; every goroutine parks at each pause point of the notifier and the blocking wrappers, and each step (resume one parked goroutine / start a call / cancel / Close) is a rapid draw; additionally the complete choice tree is enumerated with an odometer for W=1,P=1 (plain, +cancel, +close, typed), W=1,P=0 (+cancel+close), W=1,P=2 (thorough: W=2,P=1 and W=2,P=1+close), and seeded free-running mixes run without pauses; oracle at every step: a returned waiter had a reason (offset below NextOffset / relative / overlapping Publish, Close, cancel), its result equals what Consume returned at the moment it left the wait, and at FULL quiescence no waiter is blocked that a completed Publish passed, whose context ended, or after Close completed; non-trivial = a Publish-notify, Close or cancel step was taken while a waiter stood between the fast-path check and its park; distinct by (configuration, choice sequence). Up to three other calls on the same handle (Sync, GC, Stat, NextOffset, Delete, Consume, Backup) may be placed anywhere in a schedule (also in three exhaustive configurations): no waiter may notice them; the wrapper is also opened on a non-empty log",
                 level_note="interleavings at the granularity of the listed pause points (verif build tag); Go's select between two simultaneously ready wake-up causes is resolved by the runtime, not by the scheduler; virtual time, no wall clock"),
     "C19": dict(level="exploration", jobs=[J("TestC19Handles", (2, 5000), (8, 40000)), J("TestC19Hist", (2, 600), (8, 5000), steps=35)],
-                rule="handles job: one case = a sequence of open-RW/open-RO/close/publish/read-only queries/failing opens (flipped index flags, corrupt index with Check, missing directory) over three handle slots, checked against the lock matrix; history job: read-only sessions (1-3 handles, optional index removal) inside C01-style histories with full observation against the model, ErrReadonly, byte comparison of *.log; non-trivial = a failed open followed by a successful one, or >=2 simultaneous read-only handles (handles job) / a read-only session on a multi-segment log (history job); distinct by case hash. Handles job also: Backup (into the handle's own directory under four spellings, into another directory), GC and Sync on read-only handles with byte comparison of *.log; read-only open of a damaged head with Check/Recover; reads that fail on a damaged segment, the file repaired, reads again, Close, then a read-write Open must succeed"),
+                rule="handles job: one case = a sequence of open-RW/open-RO/close/publish/read-only queries/failing opens (flipped index flags, corrupt index with Check, missing directory) over three handle slots, checked against the lock matrix; history job: read-only sessions (1-3 handles, optional index removal) inside C01-style histories with full observation against the model, ErrReadonly, byte comparison of *.log; non-trivial = a failed open followed by a successful one, or >=2 simultaneous read-only handles (handles job) / a read-only session on a multi-segment log (history job); distinct by case hash. Handles job also: Backup (into the handle's own directory under four spellings, into another directory), GC and Sync on read-only handles with byte comparison of *.log; read-only open of a damaged head with Check/Recover; reads that fail on a damaged segment, the file repaired, reads again, Close, then a read-write Open must succeed; an Open parked inside its lock acquisition (the lock file made a FIFO) while the writer publishes into new segments and closes must see the writer's final state"),
     "C15": dict(level="exploration", jobs=[J("TestC15", (4, 1500), (16, 12000), steps=40)],
                 rule="one case = one history biased to FindBy*/TrimBy* (offset, count, size on single-version logs, age) in single, Multi and MultiOffsets variants with bounds below/inside/above the live range; prefix and bound predicates from the property; non-trivial = a trim removed messages on a state with >=2 segments; distinct by trace hash. Dimensions drawn per case or step in every history job: index configuration; rollover size (incl. exactly the head's size, +-1); NewSegmentsVersion/KeepRewriteVersion/EagerVersionMigrate/Check/Recover/AutoSync re-drawn at every open; index files removed and segment files replaced by symbolic links while closed; directory name (glob/shell characters) and spelling; message times monotone / arbitrary / zero (stamped by the log) / far future / with nanoseconds and a zone / before 1970; keys incl. nil, empty, hash collisions and keys of 300, 5000 and 70000 bytes; values up to 70 KB; a rejected (too big) message at a drawn position of a batch; offsets and bounds up to MaxInt64; nil map/slice; Multi calls with the library's back-off or one that fails / cancels; the invariant after every step or only every n-th (lazy state); read-only sessions incl. GC; a missing key/value is handed out the same way (nil or empty) every time"),
     "C16": dict(level="exploration", jobs=[J("TestC16", (4, 1500), (16, 12000), steps=40)],
